@@ -45,6 +45,8 @@ type Server struct {
 	// EmptyListRV makes List answer with an empty ListMeta.ResourceVersion (the objects keep their versions); a
 	// Watch from "" starts at the server's current version.
 	EmptyListRV bool
+	// frozen, when set, is what the next List to complete answers with (the state at the moment Freeze was called)
+	frozen *frozenList
 	// Blocked counts Watch calls that are blocked until their context is cancelled (WatchBlock).
 	Blocked atomic.Int32
 	// Mixed makes List return a generic metav1.List of all stored objects, whatever their kinds.
@@ -82,6 +84,19 @@ type ListCall struct {
 type WatchCall struct {
 	At time.Time
 	RV string
+}
+
+type frozenList struct {
+	objs []Obj
+	rv   string
+}
+
+// Freeze fixes the answer of the next List to complete to the server's present state: changes applied from now on
+// are strictly after that list, whatever the scheduler does with the goroutine that serves it.
+func (s *Server) Freeze() {
+	s.mu.Lock()
+	s.frozen = &frozenList{s.stateLocked(), strconv.Itoa(s.rv)}
+	s.mu.Unlock()
 }
 
 func NewServer() *Server { return &Server{objs: map[string]Obj{}, RVStep: 1} }
@@ -203,6 +218,10 @@ func (s *Server) List(ctx context.Context, opts metav1.ListOptions) (runtime.Obj
 	}
 	s.mu.Lock()
 	objs, rv := s.stateLocked(), strconv.Itoa(s.rv)
+	if s.frozen != nil {
+		objs, rv = s.frozen.objs, s.frozen.rv
+		s.frozen = nil
+	}
 	s.mu.Unlock()
 	if s.StaleList {
 		objs, rv = staleObjs, staleRV
